@@ -1,6 +1,6 @@
 (* Properties/C18.v — stop, end-of-sequence and accepting status are mutually consistent *)
 From LLG Require Import Base Regex RegexProofs Trie StopCtrl StopCtrlProofs StopRunProofs
-                        Svob WalkM Lexer Earley Engine PureEngine TokParser MatcherProofs.
+                        Svob WalkM Lexer Earley Engine PureEngine TokParser MatcherProofs TokParserProofs.
 
 (* ---- the stop-sequence controller ---- *)
 (* returns nothing once stopped *)
@@ -121,3 +121,46 @@ Theorem C18_out_of_range_token_refused : forall cx t tok,
   vocab_size (c_trie cx) <= tok -> fst (tp_apply_token cx t tok) = TErr.
 Proof. exact out_of_range_token_refused. Qed.
 Print Assumptions C18_out_of_range_token_refused.
+
+(* ---- at and after a stop ---- *)
+(* after a stop no further token is accepted *)
+Theorem C18_stopped_refuses_commit : forall cx t tok,
+  stopped t = true -> t_panicked t = false ->
+  exists t', m_consume_token cx t tok = (TErr, t') /\ t_panicked t' = true.
+Proof. exact stopped_refuses_commit. Qed.
+Print Assumptions C18_stopped_refuses_commit.
+
+(* asking for a mask is an error ... *)
+Theorem C18_stopped_refuses_mask : forall cx t,
+  stopped t = true -> t_panicked t = false ->
+  exists t', m_compute_mask cx t = (TErr, t') /\ t_panicked t' = true.
+Proof. exact stopped_refuses_mask. Qed.
+Print Assumptions C18_stopped_refuses_mask.
+
+(* ... or, through compute_mask_or_eos, yields exactly the end-of-sequence tokens *)
+Theorem C18_stopped_mask_is_eos_only : forall cx t,
+  stopped t = true -> t_panicked t = false -> p_panic (t_p t) = false ->
+  exists m, m_compute_mask_or_eos cx t = (TOk m, t) /\
+            forall i, i < vocab_size (c_trie cx) -> (get m i = true <-> In i (c_eos cx)).
+Proof. exact stopped_mask_or_eos. Qed.
+Print Assumptions C18_stopped_mask_is_eos_only.
+
+(* a successful commit leaves the matcher stopped only if check_stop saw an accepting state *)
+Theorem C18_stop_only_when_accepting : forall cx t tok u t',
+  stopped t = false -> m_consume_token cx t tok = (TOk u, t') -> stopped t' = true ->
+  exists a t'', tp_is_accepting cx (with_stop t' NotStopped) = (a, t'') /\ a = true.
+Proof. exact stop_only_when_accepting. Qed.
+Print Assumptions C18_stop_only_when_accepting.
+
+(* validation never changes the protocol state; rolling back too far is refused for good *)
+Theorem C18_validate_keeps_protocol_state : forall cx t toks r t',
+  m_validate cx t toks = (TOk r, t') ->
+  t_stop t' = t_stop t /\ t_tokens t' = t_tokens t /\ t_bytes t' = t_bytes t.
+Proof. exact validate_keeps_protocol_state. Qed.
+Print Assumptions C18_validate_keeps_protocol_state.
+
+Theorem C18_rollback_too_far_refused : forall cx t n,
+  t_panicked t = false -> (length (t_tokens t) < n)%nat ->
+  exists t', m_rollback cx t n = (TErr, t') /\ t_panicked t' = true.
+Proof. exact rollback_too_far_refused. Qed.
+Print Assumptions C18_rollback_too_far_refused.
